@@ -2,7 +2,7 @@ import FV.Proofs.Alloc
 /-
   C02 — Refining an allocation conserves tiling, module area and centroid.
   Property theorems only (helper lemmas live in `FV/Proofs/Alloc.lean`; spec definitions used here:
-  `ValidAlloc`, `CellsOK`, `Refines`, `TilesCell`, `areaSum`, `momXSum`, `momYSum`, `OpOK` from that file,
+  `ValidAlloc`, `CellsOK`, `Refines`, `TilesCell`, `areaSum`, `momXSum`, `momYSum`, `OpOK`, the witnesses `exRaw`, `exRawF` from that file,
   `Mem` from `FV/Props/C18.lean`).
   All statements are over an arbitrary linearly ordered field `α` (exact arithmetic); `Rat`, at which the
   driver `drv_alloc` executes the very same definitions, is one.  `env` (the literals `1e-12`, `0.01`,
@@ -11,7 +11,7 @@ import FV.Proofs.Alloc
   `fixes/C12_must_be_refined_guard.diff` applied.
 -/
 namespace FV.C02
-open FV FV.Rect FV.C18
+open FV FV.Alloc FV.Rect FV.C18
 set_option linter.unusedSectionVars false
 set_option linter.unusedSimpArgs false
 set_option linter.unusedVariables false
@@ -186,21 +186,52 @@ theorem refines_unfold (cs cs' : List (Cell α)) (h : Refines cs cs') :
     (∀ c ∈ cs, c.rect.fixed = true → c ∈ cs') :=
   ⟨h.mem, h.fixed_kept⟩
 
-/-! ### non-vacuity: a concrete allocation over `ℚ` accepted by the constructor (hence valid), on which a
-    composition of the three operations runs -/
+/-! ### non-vacuity: the hypotheses are met by concrete allocations over `ℚ`, and the theorems are applied to them
 
-def exEnv : Env ℚ := ⟨1 / 1000000000000, 1 / 100, fun _ => 1 / 1000⟩
-def exRaw : List (RawCell ℚ) :=
-  [⟨.vec 1 1 2 2 none, [("M1", 1/2), ("M2", 1/4)], 0⟩,
-   ⟨.vec 3 (1/2) 2 1 (some "dsp"), [("M2", 3/4)], 1⟩,
-   ⟨.vec 3 (3/2) 2 1 none, [], 0⟩]
+  `exRaw` (three cells: two modules / region `dsp` at depth 1 / an empty ratio map) and `exRawF` (three `Rectangle`
+  objects, the second one flagged fixed with ratio 1) are defined in `FV/Proofs/Alloc.lean`; the constructor accepts
+  both (kernel evaluation), hence both are `ValidAlloc` (`constructor_valid`). -/
 
-def isOk {ε β : Type} : Except ε β → Bool | .ok _ => true | .error _ => false
+/-- the constructor accepts `exRaw`, and what it returns satisfies `ValidAlloc` — the hypothesis of every theorem. -/
+theorem ex_valid : ∃ a st, mkAllocation exEnv ⟨-1, -1⟩ exRaw = .ok (a, st) ∧ ValidAlloc st a := exRaw_valid
 
-example : isOk (mkAllocation exEnv ⟨-1, -1⟩ exRaw) = true := by decide +kernel
-example : isOk (match mkAllocation exEnv ⟨-1, -1⟩ exRaw with
-    | .ok (a, st) => applyOps exEnv [.refine (1/2) 2, .uniform, .griddify] st a
-    | .error e => .error e) = true := by decide +kernel
-example : ∀ rc ∈ exRaw, RawPos rc := by intro rc h; simp [exRaw] at h; rcases h with rfl | rfl | rfl <;> trivial
+/-- the same for an allocation CONTAINING A FIXED CELL. -/
+theorem ex_fixed_valid : ∃ a st, mkAllocation exEnv ⟨-1, -1⟩ exRawF = .ok (a, st) ∧ ValidAlloc st a := exRawF_valid
+
+/-- `ops_conserve` applied: refine(1/2, 2) ∘ uniform ∘ griddify on `exRaw` (3 cells become 12, see below). -/
+theorem ex_ops_conserve : ∃ a st a', mkAllocation exEnv ⟨-1, -1⟩ exRaw = .ok (a, st) ∧
+    applyOps exEnv [.refine (1/2) 2, .uniform, .griddify] st a = .ok (a', st) ∧ ValidAlloc st a' ∧
+    Refines a.cells a'.cells ∧ a'.stats = a.stats := by
+  obtain ⟨a, st, h, hv⟩ := ex_valid
+  obtain ⟨a', h1, v, r, s, _⟩ := ops_conserve exEnv st [.refine (1/2) 2, .uniform, .griddify] a hv
+    (by intro op hop; simp at hop; rcases hop with rfl | rfl | rfl <;> simp [OpOK])
+  exact ⟨a, st, a', h, h1, v, r, s⟩
+
+/-- `op_fixed_uncut` applied to the allocation with a fixed cell, for each of the three operations
+    (`refine(1, 1)` — the threshold the unrepaired code cut fixed cells with —, uniform depth (depths 1 and 0 differ,
+    so it is not the identity), griddify). -/
+theorem ex_fixed_uncut (op : Op ℚ) (hop : op = .refine 1 1 ∨ op = .uniform ∨ op = .griddify) :
+    ∃ a st a', mkAllocation exEnv ⟨-1, -1⟩ exRawF = .ok (a, st) ∧ applyOp exEnv st a op = .ok (a', st) ∧
+      (∃ c ∈ a.cells, c.rect.fixed = true) ∧ ∀ c ∈ a.cells, c.rect.fixed = true → c ∈ a'.cells := by
+  obtain ⟨a, st, h, hv⟩ := ex_fixed_valid
+  have hok : OpOK op := by rcases hop with rfl | rfl | rfl <;> simp [OpOK]
+  obtain ⟨a', h1⟩ := op_ok exEnv st a op hv hok
+  obtain ⟨parts, e, hp⟩ := op_fixed_uncut exEnv st st a a' op hv hok h1
+  refine ⟨a, st, a', h, h1, ?_, ?_⟩
+  · have hc : (match mkAllocation exEnv ⟨-1, -1⟩ exRawF with
+        | .ok (a, _) => a.cells.any (fun c => c.rect.fixed) | .error _ => false) = true := by decide +kernel
+    rw [h] at hc
+    simpa using hc
+  · exact (show Refines a.cells a'.cells from ⟨parts, e, hp.imp (fun _ _ h => h.1)⟩).fixed_kept
+
+/-- the runs above are not the identity: cell counts before / after (kernel evaluation of the model). -/
+example : (match mkAllocation exEnv ⟨-1, -1⟩ exRaw with
+    | .ok (a, st) => (match applyOps exEnv [.refine (1/2) 2, .uniform, .griddify] st a with
+        | .ok (a', _) => (a.cells.length, a'.cells.length) | .error _ => (0, 0))
+    | .error _ => (0, 0)) = (3, 12) := by decide +kernel
+example : (match mkAllocation exEnv ⟨-1, -1⟩ exRawF with
+    | .ok (a, st) => (match applyOp exEnv st a .uniform with
+        | .ok (a', _) => (a.cells.length, a'.cells.length, a'.cells.any (fun c => c.rect.fixed && c.depth == 0)) | .error _ => (0, 0, false))
+    | .error _ => (0, 0, false)) = (3, 4, true) := by decide +kernel
 
 end FV.C02
